@@ -157,6 +157,10 @@ func init() {
 		return ret1(Concat(ps...))
 	})
 	reg("strings.Split", intrSplit)
+	reg("strings.Compare", func(c *CallCtx, a []Value) []Outcome {
+		x, y := a[0].(*Term), a[1].(*Term)
+		return ret1(Ite(Eq(x, y), MkI(0), Ite(StrLt(x, y), MkI(-1), MkI(1))))
+	})
 	reg("strings.EqualFold", func(c *CallCtx, a []Value) []Outcome {
 		return ret1(Eq(lowerT(a[0].(*Term)), lowerT(a[1].(*Term))))
 	})
@@ -712,6 +716,29 @@ func newBig(s *State, t *Term) *Ptr {
 	return &Ptr{Obj: s.alloc(&BigV{t})}
 }
 
+// signAware specialises truncated division/remainder when the path condition fixes the operand signs
+// (spares the solvers the four-way sign case split of Go's truncating semantics).
+func signAware(c *CallCtx, f func(x, y *Term) *Term, x, y *Term) func(x, y *Term) *Term {
+	if x.isI() || y.isI() && false {
+		return f
+	}
+	xlo, _ := Bounds(x)
+	ylo, _ := Bounds(y)
+	if xlo != nil && xlo.Sign() >= 0 && ylo != nil && ylo.Sign() > 0 {
+		return f
+	}
+	xNonNeg := c.E.decide(c.S, Le(MkI(0), x)) == TTrue
+	yPos := c.E.decide(c.S, Lt(MkI(0), y)) == TTrue
+	if xNonNeg && yPos {
+		isRem := f(MkI(7), MkI(2)).isIv(1)
+		if isRem {
+			return func(x, y *Term) *Term { return Mod(x, y) }
+		}
+		return func(x, y *Term) *Term { return Div(x, y) }
+	}
+	return f
+}
+
 func registerBig() {
 	reg := RegisterIntrinsic
 	setRecv := func(c *CallCtx, recv Value, t *Term) []Outcome {
@@ -731,9 +758,10 @@ func registerBig() {
 			return setRecv(c, a[0], f(bigOfPtr(c.S, a[1]), bigOfPtr(c.S, a[2])))
 		}
 	}
-	divz := func(f func(x, y *Term) *Term) Intrinsic {
+	divz := func(f0 func(x, y *Term) *Term) Intrinsic {
 		return func(c *CallCtx, a []Value) []Outcome {
 			x, y := bigOfPtr(c.S, a[1]), bigOfPtr(c.S, a[2])
+			f := signAware(c, f0, x, y)
 			z := Eq(y, MkI(0))
 			recv := a[0].(*Ptr)
 			if z == TTrue {
@@ -764,9 +792,10 @@ func registerBig() {
 		if z == TTrue {
 			panic(goPanic{"division by zero"})
 		}
+		q, r := signAware(c, truncDiv, x, y)(x, y), signAware(c, truncRem, x, y)(x, y)
 		do := func(st *State) {
-			st.store(recv, &BigV{truncDiv(x, y)})
-			st.store(rp, &BigV{truncRem(x, y)})
+			st.store(recv, &BigV{q})
+			st.store(rp, &BigV{r})
 		}
 		if z == TFalse {
 			do(c.S)
